@@ -388,6 +388,26 @@ func exhaustiveCert(g *gen) {
 			}
 		}
 		flush()
+		// several certificates under ONE profile whose certificatePolicies entry holds a user notice with an empty number list: the
+		// profile stays what it was while its certificates are built one after the other (library path) or all at once (files)
+		{
+			mk := func(hasNums bool) Ext {
+				return Ext{Kind: "cp", HasContent: true, Crit: -1, Pols: []Policy{{Oid: "1.2.3.4", HasQuals: true,
+					Quals: []Qualifier{{Notice: &UserNotice{Org: "Org", HasNums: hasNums, Numbers: []int64{}, Text: "T"}}}}}}
+			}
+			shared := &Profile{Name: "pshared", Exts: []PExt{{Ext: mk(true)}}}
+			var ss []Cfg
+			for i, own := range [][]Ext{nil, {mk(true)}, {mk(false)}, nil, {mk(true)}} {
+				c := plainSub(800 + i)
+				c.Profile = shared.Name
+				c.Exts = own
+				ss = append(ss, c)
+			}
+			batchP("c08-shared-profile", plainRoot(), ss, []*Profile{shared})
+			apiMode = true
+			batchP("c08-shared-profile-api", plainRoot(), ss, []*Profile{shared})
+			apiMode = false
+		}
 	case "c07":
 		var subs []Cfg
 		for f := 0; f < 128; f++ {
